@@ -20,11 +20,13 @@ pub fn check(tier: Tier) -> Check {
         parts.push(Part::new("C07/dispatch", json!({"depth": d}), k, tier.pick(40, 500)));
     }
     parts.push(Part::new("C07/fields", json!({}), 0, tier.pick(20, 60)));
+    // four established subscriptions: stream drops / lag in every order, messages to every one
+    parts.push(Part::new("C07/many", json!({"subs": 4, "depth": tier.pick(4, 6)}), tier.pick(0, 1), tier.pick(30, 400)));
     Check {
         also_rel: false,
         property: "C07",
         level: "model_checking",
-        rule: "all event sequences over <=2 subscribe calls, SUBACKs, stream() calls, inbound PUBLISH (QoS 0/1/2 x subscription identifier absent / first / second / unknown / both / repeated adjacently and non-adjacently / mixed with an unknown one), stream drops, an unsubscribe, with lagging (held) and spuriously polled streams as deviations; plus a sweep over message field combinations; non-trivial = at least one message was dispatched to a stream".into(),
+        rule: "all event sequences over <=2 subscribe calls, SUBACKs, stream() calls, inbound PUBLISH (QoS 0/1/2 x subscription identifier absent / first / second / unknown / both / repeated adjacently and non-adjacently / mixed with an unknown one), stream drops, an unsubscribe, with lagging (held) and spuriously polled streams as deviations; plus four established subscriptions with stream drops and messages to each in every order, and a sweep over message field combinations; non-trivial = at least one message was dispatched to a stream".into(),
         assumptions: vec![
             "acknowledgements written by the client are not compared here (C08)".into(),
             "QoS 2 identifiers are not repeated here (C09)".into(),
@@ -98,7 +100,51 @@ fn fields_scenario(name: String, params: Value) -> Scenario {
     })
 }
 
+fn many(name: String, params: Value) -> Scenario {
+    let n = params["subs"].as_u64().unwrap_or(4) as usize;
+    let depth = params["depth"].as_u64().unwrap_or(4) as usize;
+    Box::new(move |chz, ex| {
+        let mut sys = Sys::new("C07", &name, chz);
+        sys.params = params.clone();
+        sys.m.check_client_acks = false;
+        sys.bring_up(vec![]);
+        for i in 0..n {
+            sys.apply(Ev::Start(OpSpec::Subscribe(SubscribeSpec::simple(&format!("s/{}", i)))));
+            if sys.dead {
+                return sys.report(ex, &[]);
+            }
+            let ack = sys.ack_for(i, 0, "").unwrap();
+            sys.apply(Ev::Deliver(ack));
+            sys.apply(Ev::TakeStream(i));
+        }
+        if sys.dead {
+            return sys.report(ex, &[]);
+        }
+        let ids: Vec<u32> = sys.m.subs.iter().map(|x| x.sub_id.unwrap()).collect();
+        let devs = |s: &Sys| sched_deviations(s, false, true);
+        let evs = |s: &Sys| {
+            let mut e = vec![];
+            for i in 0..s.m.streams.len() {
+                if s.m.streams[i].alive {
+                    e.push(Ev::DropStream(i));
+                }
+            }
+            let t = s.transitions;
+            for id in &ids {
+                e.push(Ev::Deliver(inbound(0, false, 0, &[*id], &format!("m{}", t))));
+            }
+            e.push(Ev::Deliver(inbound(1, false, 30, &[ids[0], ids[ids.len() - 1]], &format!("b{}", t))));
+            e
+        };
+        drive(&mut sys, chz, depth, &devs, &evs);
+        sys.report(ex, &["message-dispatched"]);
+    })
+}
+
 pub fn scenario(name: &str, params: &Value) -> Scenario {
+    if name == "C07/many" {
+        return many(name.to_string(), params.clone());
+    }
     if name == "C07/fields" {
         return fields_scenario(name.to_string(), params.clone());
     }
